@@ -152,6 +152,23 @@ fn step(target: &str, sni: &str, s: &Value, seed: &mut Rng) -> Value {
             drop(conn);
             json!({"do": what, "connected": true})
         }
+        "huge_alpn" => {
+            // ClientHellos whose ALPN extension is as long as the protocol allows (thousands of one-letter names), without and with acme-tls/1
+            let mut out = vec![];
+            let mut c = Some(conn);
+            for n in [1000usize, 8000, 20000, 30000] {
+                for with_acme in [false, true] {
+                    let mut protos: Vec<String> = (0..n).map(|k| ((b'a' + (k % 26) as u8) as char).to_string()).collect();
+                    if with_acme { protos.push("acme-tls/1".to_string()); }
+                    let cc = match c.take() { Some(x) => Ok(x), None => connect(target) };
+                    if let Ok(cc) = cc {
+                        let r = tls_probe(cc, sni, &protos);
+                        out.push(json!({"names": n, "with_acme": with_acme, "ok": r.get("handshake_ok"), "alpn": r.get("alpn")}));
+                    }
+                }
+            }
+            json!({"do": what, "connected": true, "handshakes": out})
+        }
         "hello_alert" => {
             // a well-formed ClientHello followed by fatal alerts of several descriptions (one connection each)
             let mut out = vec![];
@@ -240,13 +257,22 @@ fn step(target: &str, sni: &str, s: &Value, seed: &mut Rng) -> Value {
                     let _ = c.write_all(&[0x16, 0x03, 0x01, 0x02, 0x00, 0x01, 0x00]);
                 }
             }
+            // many short-lived connections while the stalled ones are still there
+            let short = s.get("short_conns").and_then(|v| v.as_u64()).unwrap_or(0);
+            let mut short_ok = 0;
+            for _ in 0..short {
+                if let Ok(c) = connect(target) {
+                    drop(c);
+                    short_ok += 1;
+                }
+            }
             // a valid handshake while the others are stalled
             let mid = s.get("valid_meanwhile").and_then(|v| v.as_bool()).unwrap_or(true).then(|| {
                 connect(target).map(|c| tls_probe(c, sni, &["acme-tls/1".to_string()])).unwrap_or(json!({"handshake_ok": false, "err": "connect"}))
             });
             std::thread::sleep(Duration::from_millis(hold));
             drop(conns);
-            json!({"do": what, "connected": true, "opened": ok, "meanwhile": mid})
+            json!({"do": what, "connected": true, "opened": ok, "short_conns": short_ok, "meanwhile": mid})
         }
         _ => json!({"do": what, "connected": true, "err": "unknown behaviour"}),
     }
